@@ -80,7 +80,8 @@ fn block(p: &Party, id: u32, arg: usize) {
 /// Callback installed into tiny_std::verif_thread.
 pub fn on_point(id: u32, arg: usize) {
     let tid = sys::gettid();
-    if id == vt::JOIN_BEFORE_WAIT || id == vt::DROP_BEFORE_WAIT {
+    // only the handle owner's waits are observed / scheduled (a closure may itself spawn and join)
+    if (id == vt::JOIN_BEFORE_WAIT || id == vt::DROP_BEFORE_WAIT) && tid == PARTIES[0].tid.load(Ordering::SeqCst) {
         WAIT_TID.store(tid, Ordering::SeqCst);
         WAIT_ADDR.store(arg, Ordering::SeqCst);
         WAIT_OPS_LOGGED.store(0, Ordering::SeqCst);
